@@ -363,6 +363,13 @@ void stream_ops(Enumerator &E) {
                 Builder b; uint32_t s = b.ss(sz); Op o; o.kind = SS_SHL_INT; o.a = s; o.b = vi; o.c = ty; size_t ts = b.target(o);
                 E.cell(nm("ss_shl_int", "ty" + std::to_string(ty) + ",v" + std::to_string(vi), "size=" + std::to_string(sz)), b, ts);
             }
+    // every fill level just below a capacity boundary x floating-point values with and without a sign, finite and not: text that straddles the boundary
+    for (uint32_t sz : {240u, 244u, 246u, 248u, 249u, 250u, 251u, 252u, 253u, 254u, 255u, 256u, 500u, 504u, 506u, 507u, 508u, 509u, 510u, 511u, 512u})
+        for (unsigned f = 0; f < 2; f++)
+            for (uint32_t vi : {2u, 4u, 11u, 17u, 18u, 19u, 20u}) {
+                Builder b; uint32_t s = b.ss(sz); Op o; o.kind = SS_SHL_FLOAT; o.a = s; o.b = vi; o.c = f; size_t ts = b.target(o);
+                E.cell(nm("ss_shl_float", std::string(f ? "float" : "double") + ",v" + std::to_string(vi), "size=" + std::to_string(sz)), b, ts);
+            }
     for (uint32_t sz : {0u, 250u, 256u, 300u, 510u}) {
         for (unsigned f = 0; f < 2; f++) { Builder b; uint32_t s = b.ss(sz); Op o; o.kind = SS_SHL_FLOAT; o.a = s; o.b = 10; o.c = f; size_t ts = b.target(o); E.cell(nm("ss_shl_float", f ? "float" : "double", "size=" + std::to_string(sz)), b, ts); }
         { Builder b; uint32_t s = b.ss(sz); Op o; o.kind = SS_SHL_CHAR; o.a = s; o.b = 1; size_t ts = b.target(o); E.cell(nm("ss_shl_char", "", "size=" + std::to_string(sz)), b, ts); }
